@@ -1539,6 +1539,7 @@ def adjoint(T):
     Z = np.zeros((3, 3), dtype=T.dtype)
     if T.shape == (3,3):
         # SO(3) adjoint
+        R = T
         return np.block([
                 [R, Z],
                 [Z, R]
